@@ -19,6 +19,8 @@ ASSUMPTIONS = [
     "RNG stub: random()/uniform(lo,hi) return fresh reals in the OPEN interval (the measure-zero draw == lo makes xos divide 0/0), "
     "integers/choice/permutation return every outcome (forked), integers as numpy.int64 like the real Generator",
     "value_fn square / exp as uninterpreted functions with monotonicity, positivity, exp(0)=1 (enough for the factory families)",
+    "graph_generator itself (the function behind the 31 graph-weight-distribution keys) is run on a symbolic non-negative weight matrix: "
+    "superadditive, v(empty)=0, value = sum of strictly-upper weights, for ALL such matrices; per key only the support of its distribution is an assumption",
     "graph-weight-distribution and networkx families: decided at the matrix level (C15 lemma: any matrix with non-negative strictly-upper "
     "entries gives a superadditive game equal to its tabulation) + documented support of the numpy distributions / 0-1 adjacency; "
     "here they are only executed concretely for shape / exceptions / non-negativity of the drawn matrix",
@@ -71,6 +73,9 @@ def tasks(tier, seed):
     keys = [k for k in _registry() if k not in SKIP]
     first = ["noisy_factory", "xos", "xs"]
     keys = first + [k for k in keys if k not in first]
+    # the function behind all 31 graph-weight-distribution keys, run on a SYMBOLIC weight matrix (any distribution with support >= 0)
+    for n in ((3, 4) if tier == "quick" else (3, 4, 5)):
+        out.append({"key": f"graph_generator[symbolic dist_fn]/n{n}", "gen": "__graph_symbolic__", "n": n})
     for key in keys:
         ns = [3]
         if key in CHEAP or tier == "thorough":
@@ -99,6 +104,25 @@ def scenario(pk, params, inp):
     import numpy as np
     key, n = params["gen"], params["n"]
     patch_unbound_generator_defaults(pk)
+    if key == "__graph_symbolic__":
+        fam = [k for k, g in pk.generators.GENERATORS.items()
+               if getattr(g, "func", g) is pk.generators.graph_generator]
+
+        def dist(shape):
+            rows, cols = shape
+            a = np.empty(shape, dtype=object if pk.symbolic else float)
+            for i in range(rows):
+                for j in range(cols):
+                    x = inp.real(f"m{i}_{j}")
+                    inp.assume(x >= 0)
+                    a[i, j] = x
+            if pk.symbolic:
+                from symx.arrays import SymArray
+                a = a.view(SymArray)
+            return a
+        g = pk.generators.graph_generator(n, None, dist_fn=dist)
+        return {"concrete": False, "players": int(g.number_of_players), "values": _tab(pk, g, n), "draws": 0, "all_known": True,
+                "family_size": len(fam), "bulk": list(g.get_values())}
     gen = pk.generators.GENERATORS[key]
     if _is_concrete_only(key):
         # executed on the real RNG: shape / exceptions / sign of the drawn matrix only (class membership: C15 lemma)
@@ -195,6 +219,17 @@ def claims(params, inp, out, lg):
             for i in range(n):
                 if T >> i & 1:
                     cl.append((f"monotone-non-increasing:{T & ~(1 << i)}>={T}", lg.ge(v[T & ~(1 << i)], v[T])))
+    if key == "__graph_symbolic__":
+        cl.append(("graph-family-shares-this-function", out["family_size"] >= 30))
+        cl.append(("bulk-values-agree", lg.And([lg.eq(a, b) for a, b in zip(v, out["bulk"])])))
+        for S in range(2 ** n):
+            ref = zero
+            for i in range(n):
+                for j in range(i + 1, n):
+                    if S >> i & 1 and S >> j & 1:
+                        ref = ref + inp.real(f"m{i}_{j}")
+            cl.append((f"value-is-sum-of-upper-triangle-weights:S={S}", lg.eq(v[S], ref)))
+        return cl
     cl.append(("in-between-call-runs", "mid_exception" not in out))
     if "values2" in out:
         cl.append(("identically-seeded-calls-agree", lg.And([lg.eq(a, b) for a, b in zip(v, out["values2"])])))
@@ -220,6 +255,9 @@ def signature(params, v):
 def test_vectors(params):
     rnd = random.Random(params["key"])
     vecs = []
+    if params["gen"] == "__graph_symbolic__":
+        n = params["n"]
+        return [{f"m{i}_{j}": Fraction(rnd.randint(0, 32), 8) for i in range(n) for j in range(n)} for _ in range(2)]
     for _ in range(2):
         vecs.append({f"r{k}": Fraction(rnd.randint(1, 63), 64) for k in range(1, 200)})
     return vecs
